@@ -152,7 +152,7 @@ def suspension(E, sock, q, st, emitted):
     return on_yield
 
 
-@harness('c05.emit', ['C05', 'C01', 'C09', 'C08', 'C03', 'C10'], functions=[GET_NEXT], replay='c05_emit',
+@harness('c05.emit', ['C05', 'C01', 'C09', 'C08', 'C03', 'C10', 'C06'], functions=[GET_NEXT], replay='c05_emit',
          assumptions=['QueuePeekable.peek is used through its contract: returns the head without removing it (verified separately: c05.peek)',
                       'get_next_fragment of the queued source is used through its K-FRAG contract (C03)',
                       'L-QUEUE (emission legality at every step => per-stream order and fragment contiguity of the wire log) is a '
@@ -176,7 +176,7 @@ def emit(E):
             z3.And(SEQ(head) < SEQ(z3.Select(s['arr0'], I(j))), z3.Not(z3.Select(st['started'], z3.Select(s['arr0'], I(j))))))
 
 
-@harness('c05.emit.inv', ['C05', 'C01', 'C09', 'C08', 'C03', 'C10'], functions=[GET_NEXT], replay='c05_emit',
+@harness('c05.emit.inv', ['C05', 'C01', 'C09', 'C08', 'C03', 'C10', 'C06'], functions=[GET_NEXT], replay='c05_emit',
          assumptions=['as c05.emit'])
 def emit_inv(E):
     sock, q, st, log, transport = emit_setup(E)
